@@ -145,7 +145,7 @@ def cleanup_worker(_):
 
 def main():
     a = sys.argv[1:]
-    opt = {"--per-file": "12", "--workers": "4", "--jobs": "4", "--scale": "0.1", "--seed": "1", "--out": os.path.join(VERIF, "out", "mutation", "results.jsonl"), "--files": "", "--confirm": ""}
+    opt = {"--per-file": "12", "--workers": "4", "--jobs": "4", "--scale": "0.1", "--seed": "1", "--out": os.path.join(VERIF, "out", "mutation", "results.jsonl"), "--files": "", "--confirm": "", "--rerun-errors": ""}
     i = 0
     while i < len(a):
         opt[a[i]] = a[i + 1]; i += 2
@@ -153,7 +153,18 @@ def main():
     os.makedirs(os.path.dirname(opt["--out"]), exist_ok=True)
     jobs = []
     allprops = ["C%02d" % k for k in range(1, 21)]
-    if opt["--confirm"]:
+    if opt.get("--rerun-errors"):
+        for l in open(opt["--rerun-errors"]):
+            r = json.loads(l)
+            if r.get("result") != "check-error": continue
+            src = os.path.join(REPO, r["file"]); lines, crlf, muts = mutants_of(src)
+            for (ln, nl, d) in muts:
+                if ln + 1 == r["line"] and d == r["mutation"] and nl.strip()[:120] == r["new"]:
+                    props = list(anc.get(r["file"], []))
+                    for extra in ("C01", "C20"):
+                        if extra not in props: props.append(extra)
+                    jobs.append((r["file"], ln, nl, d, props, opt["--scale"], int(opt["--jobs"]), 250)); break
+    elif opt["--confirm"]:
         for l in open(opt["--confirm"]):
             r = json.loads(l)
             if r.get("result") != "survived": continue
